@@ -1,5 +1,6 @@
 import EpsicProofs.Lemmas.EigenCerts
 import EpsicProofs.Lemmas.JacobiSweep
+import EpsicProofs.Lemmas.JacobiSweepC
 import Mathlib.Analysis.Real.Sqrt
 import EpsicProofs.Lemmas.Stokes
 import Mathlib.Algebra.Order.Field.Basic
@@ -213,6 +214,41 @@ theorem jacobi_eigendecomposition {n : Nat} (L : Jacobi.SolverLeaves K) (hL : Ja
       E * A₀ * E.transpose = Matrix.diagonal st.d ∧ A₀ * E.transpose = E.transpose * Matrix.diagonal st.d) :=
   Jacobi.jacobi_correct L hL A₀ hA
 
+/-! ## The n×n complex Hermitian solver (`Jacobi.jacobiC`)
+
+Modelled in full and compared bit for bit with the C++ at `Float` as well.  Over any linearly ordered field with exact leaves
+and a square root that is total and exact on non-negative arguments (`SqrtTotal`), complex scalars read in the field `CxF K` -/
+
+/-- the rotation parameters on a non-zero element, in closed form: `c = m (P + Sq)`, `s = −m·a_pq`, `tau = s̄/(1+c)`,
+with `P² = Sq² + |a_pq|²`, `m² 2P(P+Sq) = 1` (so `c² + |s|² = 1`, `c > 0`) -/
+theorem jacobi_complex_rotation_parameters (sqrtFn : K → R K) (hs : Jacobi.SqrtTotal sqrtFn) (dp dq : K) (pq : Cx K)
+    (hpq : pq.re*pq.re + pq.im*pq.im ≠ 0) :
+    ∃ P m : K, Jacobi.RotParams dp dq pq P m ∧
+      Jacobi.calculateComplex sqrtFn (fun x => decide (x < 0)) dp dq pq =
+        .ok ⟨Jacobi.rotS pq m, Jacobi.tauOf (Jacobi.rotS pq m) (Jacobi.rotC dp dq P m), Jacobi.rotCorr dp dq pq P m⟩ :=
+  Jacobi.calcC_eq sqrtFn hs dp dq pq hpq
+
+/-- for every dimension, every Hermitian input and whatever number of sweeps runs: the solver returns, `a = E A₀ Eᴴ`
+entry by entry, the rows of `E` are orthonormal, `eval` is the real diagonal of `a`, `b + z = eval` -/
+theorem jacobi_complex_invariants {n : Nat} (L : Jacobi.SolverLeaves K) (hL : Jacobi.LeafSpec L) (sqrtFn : K → R K)
+    (hs : Jacobi.SqrtTotal sqrtFn) (hlt : L.ltZero = fun x => decide (x < 0)) (A₀ : Mat n n (Cx K))
+    (hA : ∀ i j, Jacobi.toF (A₀ i j) = Jacobi.conjF (Jacobi.toF (A₀ j i))) :
+    ∃ st, Jacobi.jacobiC L sqrtFn A₀ = .ok st ∧ Jacobi.InvC (fun i j => Jacobi.toF (A₀ i j)) st :=
+  Jacobi.jacobiC_inv L hL sqrtFn hs hlt A₀ hA
+
+/-- matrix form, and the eigen-decomposition at the `sum == 0` exit: `E A Eᴴ = diag(λ)`, `λ` real, `A Eᴴ = Eᴴ diag(λ)` -/
+theorem jacobi_complex_eigendecomposition {n : Nat} (L : Jacobi.SolverLeaves K) (hL : Jacobi.LeafSpec L) (sqrtFn : K → R K)
+    (hs : Jacobi.SqrtTotal sqrtFn) (hlt : L.ltZero = fun x => decide (x < 0)) (A₀ : Mat n n (Cx K))
+    (hA : ∀ i j, Jacobi.toF (A₀ i j) = Jacobi.conjF (Jacobi.toF (A₀ j i))) :
+    ∃ st, Jacobi.jacobiC L sqrtFn A₀ = .ok st ∧
+      (let A : Matrix (Fin n) (Fin n) (CxF K) := fun i j => Jacobi.toF (A₀ i j)
+       let E : Matrix (Fin n) (Fin n) (CxF K) := fun i j => Jacobi.toF (st.v i j)
+       let EH : Matrix (Fin n) (Fin n) (CxF K) := (E.map Jacobi.conjF).transpose
+       E * EH = 1 ∧ E * A * EH = (fun i j => Jacobi.toF (st.a i j)) ∧
+       (Jacobi.offSumC st.a = 0 → E * A * EH = Matrix.diagonal (fun i => Jacobi.ofR (st.d i)) ∧
+          A * EH = EH * Matrix.diagonal (fun i => Jacobi.ofR (st.d i)))) :=
+  Jacobi.jacobiC_correct L hL sqrtFn hs hlt A₀ hA
+
 /-- storing a matrix between steps (`Mat.freeze`/`Mat.thaw`, used by the model so that the driver runs in linear time)
 changes nothing -/
 theorem stored_matrix_is_the_matrix {n : Nat} (m : Mat n n K) : Mat.thaw (Mat.freeze m) = m := Mat.thaw_freeze m
@@ -224,5 +260,10 @@ noncomputable def realLeaves : Jacobi.SolverLeaves ℝ :=
 example : Jacobi.LeafSpec realLeaves :=
   ⟨fun _ => rfl, fun x hx => Real.mul_self_sqrt hx, fun x _ => Real.sqrt_nonneg x, fun _ _ => rfl, fun _ => rfl,
    fun _ _ => rfl, by norm_num [realLeaves], by norm_num [realLeaves]⟩
+
+noncomputable def realSqrtFn : ℝ → R ℝ := fun x => .ok (Real.sqrt x)
+example : Jacobi.SqrtTotal realSqrtFn :=
+  ⟨fun x hx => ⟨Real.sqrt x, rfl, Real.mul_self_sqrt hx, Real.sqrt_nonneg x⟩⟩
+example : realLeaves.ltZero = fun x => decide (x < 0) := rfl
 
 end Epsic.C10
